@@ -128,6 +128,9 @@ pub proof fn lemma_del_fit(m: TM, n: u32, l: NodeId, r: NodeId, nrm: VecV, t0: T
     lemma_fold_desc(c, n);
     vstd::set_lib::lemma_len_subset(li, total);
     vstd::set_lib::lemma_len_subset(ri, total);
+    assert forall|x: u32| #![trigger tnodes(c, tn(n)).contains(x)] tnodes(c, tn(n)).contains(x) implies !over_cap(c[x], cap) by {
+        assert(set![n].contains(x)); assert(x == n); assert(total.len() <= cap);
+    }
     assert forall|x: u32| #![trigger s.contains(x)] s.contains(x) && !tnodes(c, tn(n)).contains(x) implies tf.deleted.contains(x) by {
         if sl.contains(x) {
             if tnodes(b, nl).contains(x) { assert(nl.mode == NodeMode::Tree); assert(x == nl.item); }
